@@ -4,6 +4,9 @@ After *any* history of external actors' operations on a world in which the pair 
 (established at creation, `Halo.Props.C03G.created_pair_inv`), a holder's withdrawal transaction of any
 amount `1 ≤ a ≤` balance with the stated entitlement succeeds.  The 128-bit bounds are facts of the real
 ledger (`Uint128` balances and supplies) that the unbounded model records as hypotheses.
+`hvalid`: the holder's address is a valid one (the pair validates the cw20 sender of `WithdrawLiquidity`); validity is
+a fact of the environment that no operation changes (`Halo.Props.C02V.badAddr_static_run`), so it is stated on the
+initial world.
 -/
 import Halo.Proofs.C03G
 
@@ -12,7 +15,7 @@ open Halo
 
 theorem withdraw_live_after_history {name : Asset → String} {p : Nat} {a0 a1 : Asset} {lp : Nat}
     (ops : List Op) (w : World) (hinv : PairInv w p a0 a1 lp) (hv : ValidRun name w ops)
-    {h a : Nat} (hhp : h ≠ p) (ha1 : 1 ≤ a)
+    {h a : Nat} (hhp : h ≠ p) (hvalid : w.badAddr h = false) (ha1 : 1 ≤ a)
     (hab : a ≤ bal (run name w ops) (.token lp) h)
     (hr0 : bal (run name w ops) a0 p < W) (hr1 : bal (run name w ops) a1 p < W)
     (hSW : supply (run name w ops) lp < W)
@@ -20,7 +23,7 @@ theorem withdraw_live_after_history {name : Asset → String} {p : Nat} {a0 a1 :
     (hent1 : (bal (run name w ops) a1 p + 2 * E) * supply (run name w ops) lp ≤ bal (run name w ops) a1 p * a * E) :
     ∃ w' x0 x1, exec name (run name w ops) (.tokSend lp h p a .withdraw) = .ok (w', .withdraw x0 x1) ∧
       2 ≤ x0 ∧ 2 ≤ x1 :=
-  Halo.C03G.withdraw_live_after_history ops w hinv hv hhp ha1 hab hr0 hr1 hSW hent0 hent1
+  Halo.C03G.withdraw_live_after_history ops w hinv hv hhp hvalid ha1 hab hr0 hr1 hSW hent0 hent1
 
 /-- the same from genesis: the pair was created by the factory, then anything happened -/
 theorem withdraw_live_from_creation {name : Asset → String} {w w1 : World} {s : Nat} {f : List (Nat × Nat)}
@@ -28,7 +31,7 @@ theorem withdraw_live_from_creation {name : Asset → String} {w w1 : World} {s 
     (hv : ValidOp w (.factory s f (.createPair a0 a1 req c ld np nl))) (hn : NewAddrs w np nl)
     (hc : exec name w (.factory s f (.createPair a0 a1 req c ld np nl)) = .ok (w1, out))
     (ops : List Op) (hvr : ValidRun name w1 ops)
-    {h a : Nat} (hhp : h ≠ np) (ha1 : 1 ≤ a)
+    {h a : Nat} (hhp : h ≠ np) (hvalid : w.badAddr h = false) (ha1 : 1 ≤ a)
     (hab : a ≤ bal (run name w1 ops) (.token nl) h)
     (hr0 : bal (run name w1 ops) a0 np < W) (hr1 : bal (run name w1 ops) a1 np < W)
     (hSW : supply (run name w1 ops) nl < W)
@@ -36,6 +39,6 @@ theorem withdraw_live_from_creation {name : Asset → String} {w w1 : World} {s 
     (hent1 : (bal (run name w1 ops) a1 np + 2 * E) * supply (run name w1 ops) nl ≤ bal (run name w1 ops) a1 np * a * E) :
     ∃ w' x0 x1, exec name (run name w1 ops) (.tokSend nl h np a .withdraw) = .ok (w', .withdraw x0 x1) ∧
       2 ≤ x0 ∧ 2 ≤ x1 :=
-  Halo.C03G.withdraw_live_from_creation hv hn hc ops hvr hhp ha1 hab hr0 hr1 hSW hent0 hent1
+  Halo.C03G.withdraw_live_from_creation hv hn hc ops hvr hhp hvalid ha1 hab hr0 hr1 hSW hent0 hent1
 
 end Halo.Props.C20W
